@@ -575,14 +575,14 @@ def generate(ctx):
             for w in cs:
                 yield "intersect", {"old": list(o), "new": list(w)}
     # structured multi-stage stream (function level and API level)
-    for i in range(ctx.n(260, 2600)):
+    for i in range(ctx.n(200, 2600)):
         old, new, itemsize, bsl, th = _gen_transpose_like(rng)
         yield "planner", {"op": "plan", "old": old, "new": new, "itemsize": itemsize, "threshold": th, "bsl": bsl, "structured": True}
         if i % 6 == 0 and math.prod(sum(c) for c in old) <= 12000 and math.prod(len(c) for c in new) <= 1500:
             yield "rechunk", {"old": old, "target": new, "threshold": th, "block_size_limit": bsl,
                               "dtype": {1: "i1", 4: "i4", 8: "i8"}[itemsize]}
     # --- _intersect_1d incl. zero-length chunks, unequal sums --------------------------------
-    for _ in range(ctx.n(500, 6000)):
+    for _ in range(ctx.n(350, 6000)):
         n = rng.randint(0, 40)
         old, new = _gen_pair(rng, n, zeros=rng.random() < 0.35)
         if rng.random() < 0.05:
@@ -593,7 +593,7 @@ def generate(ctx):
         shape = [rng.randint(1, 15) for _ in range(nd)]
         yield "intersect", {"old": [rand_comp(rng, s) for s in shape], "new": [rand_comp(rng, s) for s in shape]}
     # --- normalize_chunks -------------------------------------------------------------------
-    for _ in range(ctx.n(1000, 15000)):
+    for _ in range(ctx.n(800, 15000)):
         yield "normalize", _gen_normalize(ctx, rng)
     # --- planner arithmetic -------------------------------------------------------------------
     for _ in range(ctx.n(400, 5000)):
